@@ -3402,6 +3402,126 @@ def c02_const_kd(K, n, frozen=()):
     return go()
 
 
+def c02_const_kd_two_steps(K, n=3):
+    """_two_pops_const_params / _three_pops_const_params when the integration takes exactly two steps (smallest _compute_dt answer d with
+    d < T - initial_t < 2d): the coefficient arrays are built once and
+      * each step is influx followed by the sweeps in population order, each operation fed the previous one's result;
+      * step 1 uses this_dt = d, step 2 this_dt = T - initial_t - d, for the influx and for every sweep;
+      * the a, b, c handed to the sweeps of step 2 are entry by entry those of step 1 (nothing accumulates in them between steps);
+      * the last sweep's result is returned.
+    (The closed form of a, b, c is the one-step contract c02_const_kd.)"""
+    name = {2: '_two_pops_const_params', 3: '_three_pops_const_params'}[K]
+    oid = 'C02/Integration.py:%s/two-steps.n%d' % (name, n)
+    fn = 'dadi/Integration.py::' + name
+
+    @guarded(oid, fn)
+    def go():
+        T, t0, th, d = z3.Reals('T t0 theta0 d_step')
+        nu = [z3.Real('nu%d' % (p + 1)) for p in range(K)]
+        gm = [z3.Real('gamma%d' % (p + 1)) for p in range(K)]
+        hh = [z3.Real('h%d' % (p + 1)) for p in range(K)]
+        mig = {(p, q): z3.Real('m%d%d' % (p + 1, q + 1)) for p in range(K) for q in range(K) if p != q}
+        xs = [z3.RealVal(0)] + reals('x', n - 2) + [z3.RealVal(1)]
+        shape = (n,) * K
+        f0 = {idx: z3.Real('phi' + '_'.join(map(str, idx))) for idx in itertools.product(*[range(n)] * K)}
+        phi = _nd_build(shape, lambda idx: f0[idx])
+        hy = [T > t0, t0 >= 0, th >= 0, d > 0, d < T - t0, T - t0 < 2 * d] + [v > 0 for v in nu] + [v >= 0 for v in mig.values()] + [xs[i] < xs[i + 1] for i in range(n - 1)]
+        delj = uf('delj', 3)
+        calls = []
+        ncdt = [0]
+
+        def snap(v):
+            return VList([snap(x) for x in v.items], v.kind) if isinstance(v, VList) else v
+
+        def policy(fr):
+            q = fr.qualname
+            if q == '_compute_dt':
+                def cdt(ex_, f_, a, k_):
+                    ncdt[0] += 1
+                    if ncdt[0] == 1:
+                        return d
+                    e = ex_.ctx.fresh('dt')
+                    ex_.ctx.pc.append(e >= d)
+                    return e
+                return cdt
+            if q == '_compute_delj':
+                def cdj(ex_, f_, a, k_):
+                    dxs, MInt, VInt = a[0], a[1], a[2]
+                    axis = k_.get('axis', a[3] if len(a) > 3 else 0)
+                    dl, vl = ex_.iterate(dxs), ex_.iterate(VInt)
+                    shp = ex_.list_method(MInt, 'shape')
+                    return _nd_build(shp, lambda idx: delj(to_real(exact(_nd_get(MInt, idx))), to_real(exact(dl[idx[axis]])), to_real(exact(vl[idx[axis]]))))
+                return cdj
+            if q == '_inject_mutations_%dD' % K:
+                def inj(ex_, f_, a, k_):
+                    calls.append(('inject', list(a)))
+                    return None
+                return inj
+            if q in ('_Mfunc2D', '_Mfunc3D', '_Vfunc', '_compute_dfactor', name):
+                return 'inline'
+            return 'abstract'
+        axes = 'xyz'[:K]
+
+        def ah(ex_, fref, a, kw, ctx):
+            nm = vrepr(fref)
+            for ax_ in axes:
+                k = 'implicit_precalc_%dD%s' % (K, ax_)
+                if k in nm:
+                    res = Tm('phi_after_%s.%d' % (ax_, len(calls)))
+                    calls.append((k, [a[0]] + [snap(x) for x in a[1:4]] + list(a[4:]), res))
+                    return res
+            return NotImplemented
+        ex = Executor(policy=policy, max_paths=64)
+        ex.abstract_hook = ah
+        ex.module_overrides[('dadi.Integration', 'cuda_enabled')] = False
+        f = ex.func('dadi/Integration.py', name)
+        kw = dict(theta0=th, initial_t=t0)
+        for p in range(K):
+            kw['nu%d' % (p + 1)] = nu[p]
+            kw['gamma%d' % (p + 1)] = gm[p]
+            kw['h%d' % (p + 1)] = hh[p]
+        for (p, q), v in mig.items():
+            kw['m%d%d' % (p + 1, q + 1)] = v
+
+        def thunk(e):
+            del calls[:]
+            ncdt[0] = 0
+            return e.apply(f.node, None, f.mod, [phi, VList(list(xs), 'ndarray'), T], kw, 'f'), list(calls)
+        paths = ex.explore(thunk, base_pc=hy)
+        rets = [p for p in paths if p.outcome == 'return']
+        if len(rets) != 1 or len(paths) != 1:
+            return [struct(oid, False, 'expected exactly one (returning) path: %r' % [(p.outcome, [str(c)[:60] for c in p.pc[-2:]]) for p in paths[:3]], fn, undecided=True)]
+        pth = rets[0]
+        res, cl = pth.value
+        pc = list(hy) + list(pth.pc)
+        fk = 'C02/const%dd/two-steps' % K
+        step = ['inject'] + ['implicit_precalc_%dD%s' % (K, a_) for a_ in axes]
+        out = [struct(oid + '.sequence', [c[0] for c in cl] == step * 2, 'two rounds of %s (got %s)' % (step, [c[0] for c in cl]), fn, finding_key=fk)]
+        if [c[0] for c in cl] != step * 2:
+            return out
+        s1, s2 = cl[:K + 1], cl[K + 1:]
+        goals = [(to_real(exact(s1[0][1][1])) == d, 'step 1 influx dt'), (to_real(exact(s2[0][1][1])) == T - t0 - d, 'step 2 influx dt')]
+        chain = s1[0][1][0] is phi and s2[0][1][0] is s1[-1][2]
+        for stp, dtw, lab in ((s1, d, 'step 1'), (s2, T - t0 - d, 'step 2')):
+            prev = stp[0][1][0]
+            for c in stp[1:]:
+                chain = chain and c[1][0] is prev
+                prev = c[2]
+                goals.append((to_real(exact(c[1][4])) == dtw, '%s %s dt' % (lab, c[0][-2:])))
+        mm = discharge(goals, pc)
+        out.append(struct(oid + '.time-steps', mm is None, mm or 'this_dt = d, then T - initial_t - d, for the influx and every sweep', fn, finding_key=fk))
+        out.append(struct(oid + '.chain', bool(chain) and res is s2[-1][2], 'each operation fed the previous result; the last sweep\'s result returned', fn, finding_key=fk))
+        for c1, c2 in zip(s1[1:], s2[1:]):
+            goals = []
+            for which, A1, A2 in zip('abc', c1[1][1:4], c2[1][1:4]):
+                for idx in f0:
+                    goals.append((to_real(exact(_nd_get(A2, idx))) == to_real(exact(_nd_get(A1, idx))), '%s[%s] of %s unchanged' % (which, ','.join(map(str, idx)), c1[0][-2:])))
+            mm = discharge(goals, pc)
+            out.append(struct('%s.%s.coefficients-unchanged' % (oid, c1[0][-2:]), mm is None, mm or 'a, b, c of step 2 are those of step 1', fn, finding_key=fk))
+        return out
+    return go()
+
+
 def c02_const_dispatch(K):
     """Integration.{one_pop,two_pops,three_pops} with every parameter a scalar (all symbolic; T > initial_t, initial_t not assumed 0; frozen / nomut
     flags symbolic booleans): on every returning path that integrates, the call is handed to _K_pops_const_params with EVERY parameter the two
